@@ -47,3 +47,185 @@ theorem coverL_spec (s e : Nat) : (cs : List ENode) → (off : Nat) → (mode : 
 end
 
 end Typstyle
+
+namespace Typstyle
+
+def ENode.children : ENode → List ENode
+  | .leaf _ _ _ => []
+  | .inner _ cs _ => cs
+
+/-! ### whether a covering node is found does not depend on the mode that is threaded through -/
+mutual
+theorem cover_none_mode (s e : Nat) : (n : ENode) → (off : Nat) → (m m' : LMode) →
+    cover s e n off m = none → cover s e n off m' = none
+  | .leaf k t err, off, m, m', h => by
+    unfold cover at h ⊢
+    simp only at h ⊢
+    split at h
+    · cases h
+    · rename_i hc; simp [hc]
+  | .inner k cs err, off, m, m', h => by
+    unfold cover at h ⊢
+    simp only at h ⊢
+    split at h
+    · cases h
+    · rename_i hn
+      rw [coverL_none_mode s e cs off _ (modeOfKind k m') hn]
+      split at h
+      · cases h
+      · rename_i hc; simp [hc]
+theorem coverL_none_mode (s e : Nat) : (cs : List ENode) → (off : Nat) → (m m' : LMode) →
+    coverL s e cs off m = none → coverL s e cs off m' = none
+  | [], _, _, _, _ => by unfold coverL; rfl
+  | c :: cs, off, m, m', h => by
+    unfold coverL at h ⊢
+    split at h
+    · cases h
+    · rename_i hn
+      rw [cover_none_mode s e c off m m' hn]
+      exact coverL_none_mode s e cs _ m m' h
+end
+
+/-! ### the covering node is the innermost one -/
+mutual
+theorem cover_minimal (s e : Nat) : (n : ENode) → (off : Nat) → (mode : LMode) → (m : ENode) → (off' : Nat) → (mode' : LMode) →
+    cover s e n off mode = some (m, off', mode') → ∀ md, coverL s e m.children off' md = none
+  | .leaf k t err, off, mode, m, off', mode', h, md => by
+    unfold cover at h
+    simp only at h
+    split at h
+    · simp only [Option.some.injEq, Prod.mk.injEq] at h
+      obtain ⟨rfl, rfl, _⟩ := h
+      unfold ENode.children coverL; rfl
+    · cases h
+  | .inner k cs err, off, mode, m, off', mode', h, md => by
+    unfold cover at h
+    simp only at h
+    split at h
+    · rename_i r hr
+      cases h
+      exact coverL_minimal s e cs off _ m off' mode' hr md
+    · rename_i hn
+      split at h
+      · simp only [Option.some.injEq, Prod.mk.injEq] at h
+        obtain ⟨rfl, rfl, _⟩ := h
+        exact coverL_none_mode s e cs off _ md hn
+      · cases h
+theorem coverL_minimal (s e : Nat) : (cs : List ENode) → (off : Nat) → (mode : LMode) → (m : ENode) → (off' : Nat) → (mode' : LMode) →
+    coverL s e cs off mode = some (m, off', mode') → ∀ md, coverL s e m.children off' md = none
+  | [], off, mode, m, off', mode', h, md => by unfold coverL at h; cases h
+  | c :: cs, off, mode, m, off', mode', h, md => by
+    unfold coverL at h
+    split at h
+    · rename_i r hr
+      cases h
+      exact cover_minimal s e c off mode m off' mode' hr md
+    · exact coverL_minimal s e cs _ mode m off' mode' h md
+end
+
+/-! ### the covering node is a node of the tree, at the offset that is returned -/
+
+/-- `Occurs root off m off'`: `m` is a node of the tree `root` (which starts at byte `off`) and starts at byte `off'`. -/
+inductive Occurs : ENode → Nat → ENode → Nat → Prop
+  | here {n off} : Occurs n off n off
+  | child {k err pre c post off m off'} : Occurs c (off + ENode.lenL pre) m off' → Occurs (.inner k (pre ++ c :: post) err) off m off'
+
+theorem lenL_append (a b : List ENode) : ENode.lenL (a ++ b) = ENode.lenL a + ENode.lenL b := by
+  induction a with
+  | nil => simp [ENode.lenL]
+  | cons x xs ih => simp only [List.cons_append, ENode.lenL, ih]; omega
+
+mutual
+theorem cover_occurs (s e : Nat) : (n : ENode) → (off : Nat) → (mode : LMode) → (m : ENode) → (off' : Nat) → (mode' : LMode) →
+    cover s e n off mode = some (m, off', mode') → Occurs n off m off'
+  | .leaf k t err, off, mode, m, off', mode', h => by
+    unfold cover at h
+    simp only at h
+    split at h
+    · simp only [Option.some.injEq, Prod.mk.injEq] at h
+      obtain ⟨rfl, rfl, _⟩ := h
+      exact Occurs.here
+    · cases h
+  | .inner k cs err, off, mode, m, off', mode', h => by
+    unfold cover at h
+    simp only at h
+    split at h
+    · rename_i r hr
+      cases h
+      obtain ⟨pre, c, post, rfl, ho⟩ := coverL_occurs s e cs off _ m off' mode' hr
+      exact Occurs.child ho
+    · split at h
+      · simp only [Option.some.injEq, Prod.mk.injEq] at h
+        obtain ⟨rfl, rfl, _⟩ := h
+        exact Occurs.here
+      · cases h
+theorem coverL_occurs (s e : Nat) : (cs : List ENode) → (off : Nat) → (mode : LMode) → (m : ENode) → (off' : Nat) → (mode' : LMode) →
+    coverL s e cs off mode = some (m, off', mode') → ∃ pre c post, cs = pre ++ c :: post ∧ Occurs c (off + ENode.lenL pre) m off'
+  | [], off, mode, m, off', mode', h => by unfold coverL at h; cases h
+  | c :: cs, off, mode, m, off', mode', h => by
+    unfold coverL at h
+    split at h
+    · rename_i r hr
+      cases h
+      exact ⟨[], c, cs, rfl, by simpa [ENode.lenL] using cover_occurs s e c off mode m off' mode' hr⟩
+    · obtain ⟨pre, c', post, rfl, ho⟩ := coverL_occurs s e cs _ mode m off' mode' h
+      refine ⟨c :: pre, c', post, rfl, ?_⟩
+      simp only [ENode.lenL]
+      rw [← Nat.add_assoc]; exact ho
+end
+
+/-! ### refusal is justified: nothing is found only when no Markup/expression/pattern contains the range -/
+mutual
+theorem cover_complete (s e : Nat) : (n : ENode) → (off : Nat) → (mode : LMode) →
+    cover s e n off mode = none → ∀ m off', Occurs n off m off' → ¬ (off' ≤ s ∧ e ≤ off' + m.len ∧ isCoverKind m.kind = true)
+  | .leaf k t err, off, mode, h, m, off', ho => by
+    cases ho
+    unfold cover at h
+    simp only at h
+    split at h
+    · cases h
+    · rename_i hc
+      intro ⟨h1, h2, h3⟩
+      apply hc
+      simp only [Bool.and_eq_true, decide_eq_true_eq]
+      exact ⟨⟨h1, by simpa [ENode.len] using h2⟩, h3⟩
+  | .inner k cs err, off, mode, h, m, off', ho => by
+    unfold cover at h
+    simp only at h
+    split at h
+    · cases h
+    · rename_i hn
+      split at h
+      · cases h
+      · rename_i hc
+        cases ho with
+        | here =>
+          intro ⟨h1, h2, h3⟩
+          apply hc
+          simp only [Bool.and_eq_true, decide_eq_true_eq]
+          exact ⟨⟨h1, by simpa [ENode.len] using h2⟩, h3⟩
+        | child ho' => exact coverL_complete s e _ off _ hn _ _ _ rfl _ _ ho'
+theorem coverL_complete (s e : Nat) : (cs : List ENode) → (off : Nat) → (mode : LMode) →
+    coverL s e cs off mode = none → ∀ pre c post, cs = pre ++ c :: post → ∀ m off', Occurs c (off + ENode.lenL pre) m off' →
+      ¬ (off' ≤ s ∧ e ≤ off' + m.len ∧ isCoverKind m.kind = true)
+  | [], off, mode, h, pre, c, post, hcs, m, off', ho => by simp at hcs
+  | x :: xs, off, mode, h, pre, c, post, hcs, m, off', ho => by
+    unfold coverL at h
+    split at h
+    · cases h
+    · rename_i hn
+      cases pre with
+      | nil =>
+        simp only [List.nil_append, List.cons.injEq] at hcs
+        obtain ⟨rfl, rfl⟩ := hcs
+        simp only [ENode.lenL, Nat.add_zero] at ho
+        exact cover_complete s e x off mode hn m off' ho
+      | cons p pre =>
+        simp only [List.cons_append, List.cons.injEq] at hcs
+        obtain ⟨rfl, rfl⟩ := hcs
+        simp only [ENode.lenL] at ho
+        rw [← Nat.add_assoc] at ho
+        exact coverL_complete s e _ _ mode h pre c post rfl m off' ho
+end
+
+end Typstyle
